@@ -55,6 +55,8 @@ var (
 	doFS     = flag.Bool("fs", true, "redirect os.ReadFile/os.Stdin in openapi3")
 )
 
+var startsGoroutines = map[string]bool{}
+
 func newSite(fset *token.FileSet, pos token.Pos, kind, fn, obj string) int {
 	p := fset.Position(pos)
 	rel, _ := filepath.Rel(rootDir, p.Filename)
@@ -104,10 +106,16 @@ func main() {
 		Dir: rootDir,
 		Env: append(os.Environ(), "GOFLAGS=-mod=mod", "GOPROXY=off", "GOSUMDB=off"),
 	}
-	pkgs, err := packages.Load(cfg, "./openapi3", "./openapi3filter", "./openapi3gen", "./routers/...", "./openapi2", "./openapi2conv")
+	// every library package of the tree (a changed tree may have new ones); commands and the runtime itself are left alone
+	all, err := packages.Load(cfg, "./...")
 	check(err)
+	var pkgs []*packages.Package
 	nerr := 0
-	for _, p := range pkgs {
+	for _, p := range all {
+		if p.Name == "main" || p.PkgPath == modPath+"/zzsimrt" || strings.HasPrefix(p.PkgPath, modPath+"/cmd/") || strings.HasPrefix(p.PkgPath, modPath+"/.github") {
+			continue
+		}
+		pkgs = append(pkgs, p)
 		for _, e := range p.Errors {
 			fmt.Fprintln(os.Stderr, "load error:", e)
 			nerr++
@@ -119,6 +127,21 @@ func main() {
 	sort.Slice(pkgs, func(i, j int) bool { return pkgs[i].PkgPath < pkgs[j].PkgPath })
 
 	stats := map[string]int{}
+	for _, p := range pkgs {
+		// a package that starts goroutines of its own talks to them over channels and condition variables:
+		// those callers are not the scheduler's, so the blocking stays real there
+		for i, f := range p.Syntax {
+			if strings.HasSuffix(p.CompiledGoFiles[i], "_test.go") {
+				continue
+			}
+			ast.Inspect(f, func(n ast.Node) bool {
+				if _, ok := n.(*ast.GoStmt); ok {
+					startsGoroutines[p.PkgPath] = true
+				}
+				return true
+			})
+		}
+	}
 	for _, p := range pkgs {
 		for i, f := range p.Syntax {
 			name := p.CompiledGoFiles[i]
@@ -276,6 +299,9 @@ func rewriteFile(p *packages.Package, f *ast.File, src []byte, stats map[string]
 			return true
 		})
 	}
+	if *doLocks && !startsGoroutines[p.PkgPath] {
+		r.blocking(f)
+	}
 	if len(r.edits) == 0 {
 		return src, 0
 	}
@@ -287,6 +313,82 @@ func rewriteFile(p *packages.Package, f *ast.File, src []byte, stats map[string]
 		tail += "var _ = os.ErrNotExist\n"
 	}
 	return apply(src, r.edits, tail), len(r.edits)
+}
+
+// blocking makes the remaining blocking operations between callers cooperative:
+// channel sends and receives outside select (`ch <- v`, `<-ch`, `v, ok := <-ch`)
+// go through zzsimrt.Send / Recv / Recv2, which try without blocking and give the
+// turn away while the channel is not ready; `c.Wait()` on a sync.Cond goes through
+// zzsimrt.CondWait (unlock, give the turn away, lock again: a wake-up the caller's
+// loop re-checks). Only the operator is replaced, operands keep their own edits.
+// select statements, range over a channel and WaitGroup.Wait are left as they
+// are (a caller that blocks in one while it holds the turn is reported by the
+// progress watchdog as undecidable).
+func (r *rewriter) blocking(f *ast.File) {
+	inComm := map[ast.Node]bool{}
+	commaOk := map[*ast.UnaryExpr]bool{}
+	ast.Inspect(f, func(n ast.Node) bool {
+		switch x := n.(type) {
+		case *ast.CommClause:
+			if x.Comm != nil {
+				inComm[x.Comm] = true
+			}
+		case *ast.AssignStmt:
+			if len(x.Lhs) == 2 && len(x.Rhs) == 1 {
+				if u, ok := ast.Unparen(x.Rhs[0]).(*ast.UnaryExpr); ok && u.Op == token.ARROW {
+					commaOk[u] = true
+				}
+			}
+		case *ast.ValueSpec:
+			if len(x.Names) == 2 && len(x.Values) == 1 {
+				if u, ok := ast.Unparen(x.Values[0]).(*ast.UnaryExpr); ok && u.Op == token.ARROW {
+					commaOk[u] = true
+				}
+			}
+		}
+		return true
+	})
+	var visit func(n ast.Node) bool
+	visit = func(n ast.Node) bool {
+		if n == nil {
+			return true
+		}
+		if inComm[n] {
+			return false // the communication of a select case stays as it is
+		}
+		switch x := n.(type) {
+		case *ast.SendStmt:
+			id := newSite(r.fset, x.Pos(), "chan", "", r.text(x.Chan))
+			r.insert(x.Pos(), fmt.Sprintf("zzsimrt.Send(%d, ", id), 2)
+			r.replace(x.Arrow, x.Arrow+2, ", ")
+			r.insert(x.End(), ")", 0)
+			r.stats["chan"]++
+		case *ast.UnaryExpr:
+			if x.Op == token.ARROW {
+				fn := "Recv"
+				if commaOk[x] {
+					fn = "Recv2"
+				}
+				id := newSite(r.fset, x.Pos(), "chan", "", r.text(x.X))
+				r.replace(x.OpPos, x.OpPos+2, fmt.Sprintf("zzsimrt.%s(%d, ", fn, id))
+				r.insert(x.End(), ")", 0)
+				r.stats["chan"]++
+			}
+		case *ast.CallExpr:
+			if sel, ok := x.Fun.(*ast.SelectorExpr); ok && sel.Sel.Name == "Wait" && len(x.Args) == 0 && r.isSyncMethod(sel, "Cond") {
+				recv := r.text(sel.X)
+				if _, isPtr := r.pkg.TypesInfo.TypeOf(sel.X).(*types.Pointer); !isPtr {
+					recv = "&(" + recv + ")"
+				}
+				id := newSite(r.fset, x.Pos(), "cond", "", r.text(sel.X))
+				r.replace(x.Pos(), x.End(), fmt.Sprintf("zzsimrt.CondWait(%d, %s)", id, recv))
+				r.stats["cond"]++
+				return false
+			}
+		}
+		return true
+	}
+	ast.Inspect(f, visit)
 }
 
 func apply(src []byte, edits []edit, tail string) []byte {
@@ -366,7 +468,14 @@ func (r *rewriter) stmt(s ast.Stmt) {
 	if es, ok := inner.(*ast.ExprStmt); ok && *doLocks {
 		if call, ok := es.X.(*ast.CallExpr); ok && len(call.Args) == 0 {
 			if sel, ok := call.Fun.(*ast.SelectorExpr); ok && (sel.Sel.Name == "Lock" || sel.Sel.Name == "RLock") {
-				if r.isSyncMutex(sel.X) {
+				if sel.Sel.Name == "Lock" && r.isSyncLocker(sel.X) {
+					// a lock reached through the sync.Locker interface (a Cond's L): decided at run time
+					id := newSite(r.fset, es.Pos(), "lock", r.fn, r.text(sel.X))
+					r.replace(es.Pos(), es.End(), fmt.Sprintf("zzsimrt.Yield(%d); zzsimrt.LockerLock(%d, %s)", id, id, r.text(sel.X)))
+					r.stats["lock"]++
+					return
+				}
+				if r.isSyncMutex(sel.X) || r.isSyncMethod(sel, "Mutex", "RWMutex") {
 					try := "TryLock"
 					if sel.Sel.Name == "RLock" {
 						try = "TryRLock"
@@ -500,6 +609,42 @@ func isNilNode(n ast.Node) bool {
 		return v == nil
 	}
 	return false
+}
+
+// isSyncMethod: sel selects a method whose receiver is one of the named sync
+// types (also when promoted from an embedded field).
+func (r *rewriter) isSyncMethod(sel *ast.SelectorExpr, names ...string) bool {
+	s := r.pkg.TypesInfo.Selections[sel]
+	if s == nil {
+		return false
+	}
+	fn, ok := s.Obj().(*types.Func)
+	if !ok {
+		return false
+	}
+	sig, ok := fn.Type().(*types.Signature)
+	if !ok || sig.Recv() == nil {
+		return false
+	}
+	t := sig.Recv().Type()
+	if p, ok := t.(*types.Pointer); ok {
+		t = p.Elem()
+	}
+	n, ok := t.(*types.Named)
+	if !ok || n.Obj().Pkg() == nil || n.Obj().Pkg().Path() != "sync" {
+		return false
+	}
+	for _, want := range names {
+		if n.Obj().Name() == want {
+			return true
+		}
+	}
+	return false
+}
+
+func (r *rewriter) isSyncLocker(x ast.Expr) bool {
+	n, ok := r.pkg.TypesInfo.TypeOf(x).(*types.Named)
+	return ok && n.Obj().Pkg() != nil && n.Obj().Pkg().Path() == "sync" && n.Obj().Name() == "Locker"
 }
 
 func (r *rewriter) isSyncMutex(x ast.Expr) bool {
